@@ -19,7 +19,15 @@ func main() {
 	seed := flag.Int64("seed", 1, "seed")
 	conc := flag.String("conc", "", "json ConcCfg: explore reader/closer schedules instead of replaying cases")
 	sizes := flag.String("sizes", "1,32,4096,9000", "secret sizes")
+	rng := flag.Int("rng", 0, "generate keys / nonces while crypto/rand.Reader returns this many bytes per Read (C03)")
 	flag.Parse()
+	if *rng > 0 {
+		if err := memdrv.Rng(*rng, 24, *trace, *out); err != nil {
+			fmt.Fprintln(os.Stderr, "memdrv:", err)
+			os.Exit(2)
+		}
+		return
+	}
 	var sz []int
 	for _, s := range strings.Split(*sizes, ",") {
 		n, _ := strconv.Atoi(s)
